@@ -170,6 +170,9 @@ func genProg(t *rapid.T, nchains int) c19Prog {
 				}
 			}
 			np := rapid.IntRange(0, 7).Draw(t, "nparams")
+			if oneIn(t, 5, "manyParams") {
+				np = rapid.IntRange(8, 11).Draw(t, "nparams") // beyond the ten words the runtime prints
+			}
 			for i := 0; i < np; i++ {
 				if rapid.IntRange(0, 9).Draw(t, "kindClass") < 5 {
 					typ := rapid.SampledFrom(scalarTypes).Draw(t, "scalarType")
@@ -341,6 +344,10 @@ func (p *c19Prog) call(c, f int) string {
 	}
 	return recv + p.name(c, f) + "(" + strings.Join(args, ", ") + ")"
 }
+
+// rePartial picks the length and capacity fields out of a rendered string or slice.
+var rePartial = regexp.MustCompile(`^[^(]*\([^ ,)]*,? ?len=([^ )]*)(?: cap=([^ )]*))?\)$`)
+var reDecimal = regexp.MustCompile(`^[0-9]+$`)
 
 var rePTR = regexp.MustCompile(`(?m)^PTR (\d+) ([0-9a-f]+)$`)
 
@@ -684,7 +691,22 @@ func c19Check(p c19Prog, dir string) error {
 				for i, pr := range params {
 					w += words(pr.Type)
 					if w > printed {
-						break // the runtime elided the rest
+						// The runtime elided the rest. A multi-word parameter of which only the
+						// first words were printed may be rendered, but nothing may be shown for
+						// the words that are missing: a length or capacity the program did not pass.
+						if have := printed - (w - words(pr.Type)); have > 0 && i < len(call.Args.Processed) {
+							got := call.Args.Processed[i]
+							if m := rePartial.FindStringSubmatch(got); m != nil {
+								fields := []string{m[1], m[2]} // len, cap ("" for a string)
+								for k, f := range fields {
+									if k+1 >= have && f != "" && reDecimal.MatchString(f) {
+										return fmt.Errorf("%s: parameter %d (%s): only %d of its %d words were printed, yet it is rendered %q - a value for a word the runtime did not print", name, i, pr.Type, have, words(pr.Type), got)
+									}
+								}
+								st.class("partially_printed_parameters", 1)
+							}
+						}
+						break
 					}
 					if i >= len(call.Args.Processed) {
 						return fmt.Errorf("%s: parameter %d (%s) was printed by the runtime but not rendered: %q\nraw: %s", name, i, pr.Type, call.Args.Processed, call.Args.String())
